@@ -160,11 +160,45 @@ def oracle(c, out, scales):
     return (not ok), "(%s %s) %s (%s %s) = %s %s, exact %.17g" % (a, ua, op, b, ub, r, unit, float(Tt))
 
 
+def kani_units(report, tier):
+    """E1: a + b and a - b carry the left operand's unit for every f64 bit pattern and every unit pair"""
+    from engine.kani.runner import KaniCrate, Harness, confirm_failures
+    from spec import catalogue
+    from props import kanigen as G, synthdefs
+    qs = [q for q in catalogue.CATALOGUE if q.ref is not None]
+    pre = G.PRELUDE + synthdefs.SYNTH_RS + "".join(G.tables(q, "f64") for q in qs) + G.tables(synthdefs.DOSE, "f64")
+    kc = KaniCrate("c03", "f64", extra_src=pre)
+    for q in qs + [synthdefs.DOSE]:
+        T_ = q.name.upper()
+        kc.add(Harness("units_" + q.name.lower(), """
+        let a: f64 = kani::any();
+        let b: f64 = kani::any();
+        let i: usize = kani::any();
+        let j: usize = kani::any();
+        kani::assume(i < %(T)s_N && j < %(T)s_N);
+        let x = <%(Q)s as Quantity>::new(a, %(T)s_IDENTS[i]);
+        let y = <%(Q)s as Quantity>::new(b, %(T)s_IDENTS[j]);
+        assert!((x + y).unit() == %(T)s_IDENTS[i], "a + b is expressed in the left operand's unit");
+        assert!((x - y).unit() == %(T)s_IDENTS[i], "a - b is expressed in the left operand's unit");
+        kani::cover!(a == 0.0 && i != j && b.is_nan(), "zero left operand, NaN right operand, different units");
+        """ % {"T": T_, "Q": G.qpath(q) + q.name}, unwind=len(q.units) + 2, key="f64 %s sum/difference carry the left unit" % q.name,
+                       sample={"harness": "units_" + q.name.lower(), "symbolic": "a, b: any f64 bit pattern; unit indices i, j", "asserts": "(a+b).unit() == (a-b).unit() == left unit"}))
+    kc.add(Harness("canary_must_fail", "        let a: f64 = kani::any();\n        let x = a * quantities::length::INCH;\n        let y = a * quantities::length::FOOT;\n        assert!((x + y).unit() == quantities::length::FOOT);\n",
+                   expect="fail", key="canary", symbolic=False))
+    report.bounds["kani_units"] = "every f64 bit pattern for both amounts, every ordered unit pair (symbolic indices) of 13 catalogue types and a synthetic type"
+    kc.run(report, timeout=900)
+    confirm_failures(report)
+
+
 def run(report, tier):
     E.setup_report(report, "C03")
     backends = ["f64", "dec"]
+    import concurrent.futures as cf
+    from engine import common
     keys = E.dump_worlds(backends)
-    pool = mpool.Pool()
+    pool = mpool.Pool(jobs=max(2, common.ncpu() - 6))
+    ex_ = cf.ThreadPoolExecutor(max_workers=1)
+    fut = ex_.submit(kani_units, report, tier)
     try:
         desc = E.describe_worlds(pool, keys)
         tasks = E.ref_tasks(keys, desc)
@@ -175,5 +209,7 @@ def run(report, tier):
         pool.cross_check(report)
         E.native_confirm(report, "C03", cands, desc, oracle, probes=E.probe_amounts_2)
         E.translator_validation(report, pool, desc, ops=("add", "sub", "ratio"), full=(tier == "thorough"))
+        fut.result()
     finally:
         pool.close()
+        ex_.shutdown(wait=False)
